@@ -62,9 +62,24 @@ pub struct PCfg {
     pub flag: bool,
     /// AIGER: use `Parser::parse()` instead of the section readers (guarded, see `aiger_counts_small`)
     pub whole: bool,
+    /// AIGER section readers: 0 = every section is read to its end; otherwise the caller takes
+    /// only `take_limit(section)` items of each section and moves on (the staged API then skips
+    /// the rest of the section itself)
+    pub early: u16,
 }
 
 impl PCfg {
+    /// Items the driver takes from AIGER section number `section` before moving on.
+    pub fn take_limit(&self, section: u32) -> usize {
+        if self.early == 0 {
+            return usize::MAX;
+        }
+        let h = (self.early as u64 + 1).wrapping_mul(0x9e37_79b9_7f4a_7c15) >> (section * 5 % 50);
+        match h & 7 {
+            0..=2 => usize::MAX,
+            k => (k - 3) as usize, // 0..=4 items
+        }
+    }
     pub fn lit_name(&self) -> &'static str {
         if self.kind.is_aiger() {
             ["u8", "u16", "u32", "u64", "usize"][self.lit as usize % 5]
@@ -96,11 +111,12 @@ impl PCfg {
     }
     pub fn encode(&self) -> String {
         format!(
-            "{}:{}:{}:{}",
+            "{}:{}:{}:{}:{}",
             self.kind.name(),
             self.lit,
             self.flag as u8,
-            self.whole as u8
+            self.whole as u8,
+            self.early
         )
     }
     pub fn decode(s: &str) -> Option<PCfg> {
@@ -110,6 +126,7 @@ impl PCfg {
             lit: p.get(1)?.parse().ok()?,
             flag: *p.get(2)? == "1",
             whole: *p.get(3)? == "1",
+            early: p.get(4).and_then(|e| e.parse().ok()).unwrap_or(0),
         })
     }
     pub fn describe(&self) -> String {
@@ -128,7 +145,13 @@ impl PCfg {
             } else {
                 ""
             },
-            if self.whole { " parse()" } else { "" }
+            if self.whole {
+                " parse()".to_string()
+            } else if self.early != 0 {
+                format!(" early-exit pattern {}", self.early)
+            } else {
+                String::new()
+            }
         )
     }
 }
@@ -449,9 +472,14 @@ fn drive_satlog<L: flussab_cnf::Dimacs + std::fmt::Debug, R: Read>(
 }
 
 macro_rules! aiger_sections_tail {
-    ($r:ident, $on:ident) => {{
+    ($r:ident, $on:ident, $cfg:ident) => {{
         let mut $r = $r;
+        let mut taken = 0usize;
         loop {
+            if taken >= $cfg.take_limit(2) {
+                break;
+            }
+            taken += 1;
             match $r.next_output() {
                 Ok(Some(x)) => $on(ITEM, &|| format!("output {x:?}")),
                 Ok(None) => break,
@@ -459,7 +487,12 @@ macro_rules! aiger_sections_tail {
             }
         }
         let mut $r = tri!($r.bad_state_properties(), conv_aiger);
+        let mut taken = 0usize;
         loop {
+            if taken >= $cfg.take_limit(3) {
+                break;
+            }
+            taken += 1;
             match $r.next_bad_state_property() {
                 Ok(Some(x)) => $on(ITEM, &|| format!("bad {x:?}")),
                 Ok(None) => break,
@@ -467,7 +500,12 @@ macro_rules! aiger_sections_tail {
             }
         }
         let mut $r = tri!($r.invariant_constraints(), conv_aiger);
+        let mut taken = 0usize;
         loop {
+            if taken >= $cfg.take_limit(4) {
+                break;
+            }
+            taken += 1;
             match $r.next_invariant_constraint() {
                 Ok(Some(x)) => $on(ITEM, &|| format!("constraint {x:?}")),
                 Ok(None) => break,
@@ -475,7 +513,12 @@ macro_rules! aiger_sections_tail {
             }
         }
         let mut $r = tri!($r.justice_properties(), conv_aiger);
+        let mut taken = 0usize;
         loop {
+            if taken >= $cfg.take_limit(5) {
+                break;
+            }
+            taken += 1;
             match $r.next_justice_property_size() {
                 Ok(Some(x)) => $on(ITEM, &|| format!("justice_size {x:?}")),
                 Ok(None) => break,
@@ -483,7 +526,12 @@ macro_rules! aiger_sections_tail {
             }
         }
         let mut $r = tri!($r.justice_property_local_fairness_constraints(), conv_aiger);
+        let mut taken = 0usize;
         loop {
+            if taken >= $cfg.take_limit(6) {
+                break;
+            }
+            taken += 1;
             match $r.next_justice_property_local_fairness_constraint() {
                 Ok(Some(x)) => $on(ITEM, &|| format!("justice_lit {x:?}")),
                 Ok(None) => break,
@@ -491,7 +539,12 @@ macro_rules! aiger_sections_tail {
             }
         }
         let mut $r = tri!($r.fairness_constraints(), conv_aiger);
+        let mut taken = 0usize;
         loop {
+            if taken >= $cfg.take_limit(7) {
+                break;
+            }
+            taken += 1;
             match $r.next_fairness_constraint() {
                 Ok(Some(x)) => $on(ITEM, &|| format!("fairness {x:?}")),
                 Ok(None) => break,
@@ -499,7 +552,12 @@ macro_rules! aiger_sections_tail {
             }
         }
         let mut $r = tri!($r.and_gates(), conv_aiger);
+        let mut taken = 0usize;
         loop {
+            if taken >= $cfg.take_limit(8) {
+                break;
+            }
+            taken += 1;
             match $r.next_and_gate() {
                 Ok(Some(x)) => $on(ITEM, &|| format!("and {x:?}")),
                 Ok(None) => break,
@@ -507,7 +565,12 @@ macro_rules! aiger_sections_tail {
             }
         }
         let mut $r = tri!($r.symbols(), conv_aiger);
+        let mut taken = 0usize;
         loop {
+            if taken >= $cfg.take_limit(9) {
+                break;
+            }
+            taken += 1;
             match $r.next_symbol() {
                 Ok(Some(x)) => $on(ITEM, &|| format!("symbol {x:?}")),
                 Ok(None) => break,
@@ -550,7 +613,12 @@ fn drive_aag<L: flussab_aiger::Lit, R: Read>(
         };
     }
     let mut r = tri!(p.inputs(), conv_aiger);
+    let mut taken = 0usize;
     loop {
+        if taken >= cfg.take_limit(0) {
+            break;
+        }
+        taken += 1;
         match r.next_input() {
             Ok(Some(x)) => on(ITEM, &|| format!("input {x:?}")),
             Ok(None) => break,
@@ -558,7 +626,12 @@ fn drive_aag<L: flussab_aiger::Lit, R: Read>(
         }
     }
     let mut r = tri!(r.latches(), conv_aiger);
+    let mut taken = 0usize;
     loop {
+        if taken >= cfg.take_limit(1) {
+            break;
+        }
+        taken += 1;
         match r.next_latch() {
             Ok(Some(x)) => on(ITEM, &|| format!("latch {x:?}")),
             Ok(None) => break,
@@ -566,7 +639,7 @@ fn drive_aag<L: flussab_aiger::Lit, R: Read>(
         }
     }
     let r = tri!(r.outputs(), conv_aiger);
-    aiger_sections_tail!(r, on)
+    aiger_sections_tail!(r, on, cfg)
 }
 
 fn drive_aig<L: flussab_aiger::Lit, R: Read>(
@@ -595,7 +668,12 @@ fn drive_aig<L: flussab_aiger::Lit, R: Read>(
         };
     }
     let mut r = tri!(p.latches(), conv_aiger);
+    let mut taken = 0usize;
     loop {
+        if taken >= cfg.take_limit(1) {
+            break;
+        }
+        taken += 1;
         match r.next_latch() {
             Ok(Some(x)) => on(ITEM, &|| format!("latch {x:?}")),
             Ok(None) => break,
@@ -603,7 +681,7 @@ fn drive_aig<L: flussab_aiger::Lit, R: Read>(
         }
     }
     let r = tri!(r.outputs(), conv_aiger);
-    aiger_sections_tail!(r, on)
+    aiger_sections_tail!(r, on, cfg)
 }
 
 fn drive_btor2<R: Read>(ctor: &Ctor, src: R, pre: usize, on: &mut ItemSink) -> Outcome {
